@@ -182,8 +182,12 @@ func (idx *IVFPQIndex) Train(vectors []VectorNode) error {
 	defer idx.mu.Unlock()
 
 	// Validate sufficient training data
-	if len(vectors) < idx.nlist*10 {
-		return fmt.Errorf("need at least %d vectors for training", idx.nlist*10)
+	minVectors := idx.nlist * 10
+	if minVectors < idx.Ksub {
+		minVectors = idx.Ksub
+	}
+	if len(vectors) < minVectors {
+		return fmt.Errorf("need at least %d vectors for training", minVectors)
 	}
 
 	// Validate dimensionality
